@@ -627,7 +627,17 @@ func (in *Interp) toType(v Value, from, to types.Type) Value {
 	}
 	if _, isIface := to.Underlying().(*types.Interface); isIface {
 		if isErrorType(to) {
-			return asErr(in.conv(v, to))
+			e := asErr(in.conv(v, to))
+			if _, isErr := e.(*ErrVal); !isErr && from != nil {
+				// a value of a concrete type that implements error (`&lengthError{…}`, `codingRateError(cr)`) stored into
+				// an error: a non-nil error object (even a nil pointer of such a type makes a non-nil interface)
+				if _, fromIface := from.Underlying().(*types.Interface); !fromIface {
+					if b, isBasic := from.(*types.Basic); !isBasic || b.Kind() != types.UntypedNil {
+						return &ErrVal{NonNil: True}
+					}
+				}
+			}
+			return e
 		}
 		switch v.(type) {
 		case *Iface:
